@@ -250,9 +250,9 @@ Proof.
   destruct (filter f done); [destruct H | cbn in L; lia].
 Qed.
 
-Lemma ns_go_inv ns todo : forall done m',
+Lemma ns_go_inv ns u todo : forall done m',
   (forall r, In r todo -> m_empty r = false) ->
-  NoDup (map key done) -> ns_go ns done todo = Ok m' -> NoDup (map key m').
+  NoDup (map key done) -> ns_go ns u done todo = Ok m' -> NoDup (map key m').
 Proof.
   induction todo as [|r t IH]; cbn; intros done m' NE N H.
   - inv H. exact N.
@@ -263,25 +263,25 @@ Proof.
     + intros x Hx. apply NE. right. exact Hx.
     + rewrite map_app. cbn. apply NoDup_snoc; auto.
       intros X. apply in_map_iff in X as [y [E Hy]].
-      pose proof (filter_count_one _ done t (ns_one ns r) C (id_equals_refl _) y Hy) as F.
-      cbn in F. assert (id_equals (cur (ns_one ns r)) (cur y) = true) by (apply id_equals_key; unfold key in E; auto).
+      pose proof (filter_count_one _ done t (ns_one ns u r) C (id_equals_refl _) y Hy) as F.
+      cbn in F. assert (id_equals (cur (ns_one ns u r)) (cur y) = true) by (apply id_equals_key; unfold key in E; auto).
       congruence.
 Qed.
 
 Definition no_empties (m : rmap) : Prop := forall r, In r m -> m_empty r = false.
 
-Lemma ns_all_inv ns m m' : Inv m -> no_empties m -> ns_all ns m = Ok m' -> Inv m'.
+Lemma ns_all_inv ns u m m' : Inv m -> no_empties m -> ns_all ns u m = Ok m' -> Inv m'.
 Proof.
   unfold ns_all. intros I NE H. destruct (String.eqb ns ""); [inv H; exact I|].
-  exact (ns_go_inv ns m [] m' NE (NoDup_nil _) H).
+  exact (ns_go_inv ns u m [] m' NE (NoDup_nil _) H).
 Qed.
 
 (* with a non-empty target namespace uniqueness holds afterwards even if it did not hold before *)
-Lemma ns_all_unique ns m m' : ns <> ""%string -> no_empties m -> ns_all ns m = Ok m' -> Inv m'.
+Lemma ns_all_unique ns u m m' : ns <> ""%string -> no_empties m -> ns_all ns u m = Ok m' -> Inv m'.
 Proof.
   unfold ns_all. intros Hn NE H. destruct (String.eqb ns "") eqn:E.
   - apply String.eqb_eq in E. contradiction.
-  - exact (ns_go_inv ns m [] m' NE (NoDup_nil _) H).
+  - exact (ns_go_inv ns u m [] m' NE (NoDup_nil _) H).
 Qed.
 
 (* ---------- name prefix / suffix ---------- *)
